@@ -10,6 +10,7 @@ import fstrace
 import protolib
 import vcfgen
 import vczspec
+import epmodel
 
 ID = "C06"
 LEAN_MODULES = ["B2Z.Props.C06"]
@@ -70,6 +71,20 @@ class Setup:
         self.traces["finalise"] = ev
         self.reference = protolib.snapshot(self.out)
         self.ref_store = vczspec.read_store(self.out)
+        # model correspondence tables
+        self.cl = epmodel.Classifier(self.arrays, self.traces["init"], self.reference)
+        self.comp = epmodel.Completeness(self.cl)
+        self.comp.learn(self.after_parts)
+        self.comp.learn(self.reference)
+        ents = []
+        for j in range(self.nparts):
+            row = []
+            for a in self.arrays:
+                ids = sorted({int(self.cl.obj(p).split(":")[3]) for p in self.after_parts
+                              if self.cl.obj(p).startswith(f"pent:{j}:{self.arrays.index(a)}:")})
+                row.append(ids)
+            ents.append(row)
+        self.base_cfg = {"n_parts": self.nparts, "n_arrays": len(self.arrays), "ents": ents + [[[] for _ in self.arrays]]}
 
     def fn(self, cmd):
         v = self.v
@@ -116,16 +131,94 @@ def oracle_step(ctx, su, history, idx, res):
     return True
 
 
+def probe(su, cmd):
+    """full event sequence of `cmd` from the current state (run in a fork, tree restored afterwards)"""
+    import pickle
+    tmp = su.work / "probe_copy"
+    shutil.rmtree(tmp, ignore_errors=True)
+    if su.out.exists():
+        shutil.copytree(su.out, tmp, symlinks=True)
+    r, w = os.pipe()
+    pid = os.fork()
+    if pid == 0:
+        os.close(r)
+        ev, exc = fstrace.traced(su.out, su.fn(cmd))
+        os.write(w, pickle.dumps(ev))
+        os._exit(0)
+    os.close(w)
+    data = b""
+    while True:
+        c = os.read(r, 65536)
+        if not c:
+            break
+        data += c
+    os.close(r)
+    os.waitpid(pid, 0)
+    shutil.rmtree(su.out, ignore_errors=True)
+    if tmp.exists():
+        shutil.copytree(tmp, su.out, symlinks=True)
+        shutil.rmtree(tmp, ignore_errors=True)
+    return pickle.loads(data) if data else []
+
+
+def model_step_view(prog):
+    out = []
+    for st in prog:
+        if st[0] == "move":
+            out.append(["move", st[1][0][0], st[1][0][1]])
+        else:
+            out.append(st)
+    return out
+
+
 def run_history(ctx, su, history, label):
     shutil.rmtree(su.out, ignore_errors=True)
     su.results = []
     any_kill = any(k is not None for _, k in history)
     ctx.case((label, repr(history), su.nparts, su.vcs), any_kill)
     ok = True
+    mstate = {}
+    diverged = not ctx.driver_ok
+    legal_so_far = True
     for idx, (cmd, kill) in enumerate(history):
+        inp = {"vcf_spec": su.spec, "variants_chunk_size": su.vcs, "separator": su.sep,
+               "history": [[list(c), k] for c, k in history[: idx + 1]]}
+        if not diverged:
+            evs = probe(su, cmd)
+            muts, before = epmodel.translate(evs, su.cl)
+            cfg = epmodel.step_cfg(su.base_cfg, muts, cmd, su.cl)
         res = fstrace.run_killed(su.out, su.fn(cmd), kill)
         su.results.append(res)
         ctx.count("kill" if res == "killed" else ("raised" if res.startswith("raised") else "completed"))
+        if not diverged:
+            fuel = None
+            if res == "killed":
+                fuel = before[kill] if kill < len(before) else len(muts)
+            q = {"op": "ep.step", **cfg, "state": mstate, "cmd": cmd[0]}
+            if cmd[0] == "partition":
+                q["j"] = cmd[1]
+            if fuel is not None:
+                q["kill"] = fuel
+            m = ctx.driver.ask(q)
+            m_out = "raised" if m["error"] else ("killed" if fuel is not None and fuel < m["total_muts"] else "completed")
+            r_out = "raised" if res.startswith("raised") else res
+            real_state = su.comp.states(protolib.snapshot(su.out))
+            if m_out != r_out:
+                ctx.disagree(f"outcome of step {idx} ({cmd}, kill={kill}) differs from the model: real {res}, model {m_out}", inp, m_out, res)
+                diverged = True
+            elif real_state != m["state"]:
+                diff = {k: (m["state"].get(k), real_state.get(k)) for k in sorted(set(m["state"]) | set(real_state))
+                        if m["state"].get(k) != real_state.get(k)}
+                ctx.disagree(f"object states after step {idx} ({cmd}, kill={kill}) differ from the model (model, real)", inp,
+                             dict(list(diff.items())[:8]), "…")
+                diverged = True
+            elif res == "completed" and model_step_view(m["prog"]) != muts:
+                mp = model_step_view(m["prog"])
+                k = next((i for i, (a, b) in enumerate(zip(mp, muts)) if a != b), min(len(mp), len(muts)))
+                ctx.disagree(f"mutation sequence of {cmd} differs from the model program at position {k}", inp, mp[k:k + 3], muts[k:k + 3])
+                diverged = True
+            mstate = m["state"]
+            ctx.count("model_steps")
         ok = oracle_step(ctx, su, history, idx, res) and ok
         ctx.traces += 1
     return ok
